@@ -162,7 +162,10 @@ func verdictOf(self string, m mutant, r mutantResult, repo, known, td, overlay s
 // breaking change kept under /verif/seeded) to copies of the files it touches,
 // outside /repo, and analyses it through the overlay.
 func runPatchMutant(self string, m mutant, r mutantResult, repo, known string) mutantResult {
-	verif := filepath.Dir(filepath.Dir(self))
+	verif := filepath.Dir(checkerDirFlag) // /verif: patches are recorded relative to it
+	if verif == "" || verif == "." {
+		verif = filepath.Dir(filepath.Dir(self))
+	}
 	pf := m.Patch
 	if !filepath.IsAbs(pf) {
 		pf = filepath.Join(verif, pf)
